@@ -596,7 +596,7 @@ func (c *Column) coerce(v interface{}) (interface{}, *sqlErr) {
 			i = int64(x)
 		default:
 			f, _ := toFloat(v)
-			if f < -9.3e18 || f > 9.3e18 {
+			if f < -9223372036854775808.0 || f >= 9223372036854775808.0 {
 				return nil, &sqlErr{ErOutOfRange, fmt.Sprintf("Out of range value for column '%s' at row 1", c.Name)}
 			}
 			i = int64(math.RoundToEven(f))
